@@ -29,6 +29,16 @@ Term grammar (tuples):
 from cfg import rpo
 
 MAX_PASSES = 60
+REF_IDENTITY = (
+    "std::array::<impl [T; N]>::as_mut_slice",
+    "std::array::<impl [T; N]>::as_slice",
+    "core::array::<impl [T; N]>::as_mut_slice",
+    "core::array::<impl [T; N]>::as_slice",
+    "<std::vec::Vec<T, A> as std::ops::Deref>::deref",
+    "<std::vec::Vec<T, A> as std::ops::DerefMut>::deref_mut",
+    "<sha1::digest::generic_array::GenericArray<T, N> as std::ops::Deref>::deref",
+    "<sha1::digest::generic_array::GenericArray<T, N> as std::ops::DerefMut>::deref_mut",
+)
 MAX_DEPTH = 10
 
 
@@ -342,6 +352,11 @@ class SymExec:
                 cand = "<%s as std::convert::From<%s>>::from" % (ra[1], ra[0])
                 if cand in self.fb.bodies:
                     name = cand
+        # reference-to-reference identities of std: the result points into the argument's pointee
+        if name in REF_IDENTITY and len(args) == 1 and args[0][0] == "ref":
+            dest = self.place_loc(st, t["dest"])
+            self.write(st, dest, args[0])
+            return {"k": "call", "name": name, "args": args, "locargs": args, "term": args[0], "inlined": True, "ret": args[0], "site": site, "dest": dest}
         local = (bool(t.get("resolved_local")) or name in self.fb.bodies) and name in self.fb.bodies
         dest = self.place_loc(st, t["dest"])
         # in the recorded call term a reference argument is snapshotted to the pointee's value
